@@ -176,9 +176,9 @@ def mandatory_parents(chk: Check):
     for q in ("Storage.find_image", "Snapshots.find_shot"):
         ctx = chk.func(rel, q)
         outs = func_outcomes(chk, ctx)
-        last = outs[-1] if outs else None
-        ok = last is not None and last[0] == "raise" and not last[2]
-        chk.decide(ok, "K-PATH", f"parallels:{q}-raises-when-absent", ctx.func, "falls through to `raise` when no element has the GUID")
+        ok = _lookup_or_raise(chk, ctx, outs)
+        chk.decide(ok, "K-PATH", f"parallels:{q}-raises-when-absent", ctx.func,
+                   "returns the first element whose guid equals the argument and raises when no element has the GUID")
     octx = chk.func(rel, "HDD._open_image")
     outs = func_outcomes(chk, octx)
     rets = [o for o in outs if o[0] == "return"]
@@ -439,9 +439,30 @@ def parallels_chain(chk: Check):
             SH = shots[0][1]["phi"]
             # next shot = find_shot(current.parent)
             ok = all(nx[0] == "call" and nx[1] == ".find_shot" and nx[2][-1] == ("attr", SH, "parent") for _, nx in shots[0][1]["next"])
-            # the loop continues while the parent is not the null GUID
+            # the walk continues exactly while the parent is not the null GUID (loop test, or `while True` with a return at the base)
+            import uuid as _uuid
+
+            NULLG = S.C(_uuid.UUID(int=0))
+            par = ("attr", SH, "parent")
+
+            def going(c, p):
+                return c[0] == "cmp" and {c[2], c[3]} == {par, NULLG} and ((c[1] == "!=" and p) or (c[1] == "==" and not p))
+
+            def at_base(c, p):
+                return c[0] == "cmp" and {c[2], c[3]} == {par, NULLG} and ((c[1] == "==" and p) or (c[1] == "!=" and not p))
+
+            nxt_stmts = [n for n in ast.walk(loop[0]) if isinstance(n, ast.Assign) and
+                         R.expr(cctx, n.value, cctx.cfg.node_of.get(n))[:2] == ("call", ".find_shot") and R.expr(cctx, n.value, cctx.cfg.node_of.get(n))[2][-1] == par]
+            ok = ok and bool(nxt_stmts) and all(any(going(c, p) for c, p in conds_sym(chk, cctx, n, kinds=("if", "prior", "while"))) for n in nxt_stmts)
             test = R.expr(cctx, loop[0].test, cctx.cfg.node_of[loop[0]])
-            ok = ok and test[0] == "cmp" and test[1] == "!=" and test[2] == ("attr", SH, "parent") and S.is_const(test[3]) and str(test[3][1]) == "00000000-0000-0000-0000-000000000000"
+            has_break = any(isinstance(n, ast.Break) for n in ast.walk(loop[0]))
+            rets_in = [n for n in ast.walk(loop[0]) if isinstance(n, ast.Return)]
+            if going(test, True):
+                ok = ok and not has_break and not rets_in
+            elif S.is_const(test) and test[1] is True:
+                ok = ok and not has_break and bool(rets_in) and all(any(at_base(c, p) for c, p in conds_sym(chk, cctx, n)) for n in rets_in)
+            else:
+                ok = False
             # chain = [first.guid] and every visited shot's guid is appended
             lists = [n for n in _own_nodes(cctx.func) if isinstance(n, ast.Assign) and isinstance(n.value, ast.List) and len(n.value.elts) == 1]
             ok = ok and bool(lists) and R.expr(cctx, lists[0].value.elts[0], cctx.cfg.node_of[lists[0]]) == ("attr", SH[3], "guid")
@@ -547,3 +568,43 @@ def qcow2_snapshot(chk: Check):
                "the copied stream's buffered state is reset (base initialiser re-run on the copy, or its buffer cleared) before the view is returned"
                if okf else "the shallow copy keeps the live stream's alignment buffer: seek(0) does not drop a buffer that already sits at "
                "aligned position 0, so the view's first read returns the active image's bytes")
+
+
+def _lookup_or_raise(chk: Check, ctx, outs) -> bool:
+    """A look-up by GUID over a collection attribute: `for x in coll: if x.guid == guid: return x` followed by `raise`, or
+    `x = next((x for x in coll if x.guid == guid), None)` with `raise` when x is None."""
+    rets = [o for o in outs if o[0] == "return"]
+    raises = [o for o in outs if o[0] == "raise"]
+    if not rets or not raises:
+        return False
+    key = ("p", ctx.qual, 1)
+
+    def is_match(c, it):
+        return c[0] == "cmp" and c[1] == "==" and {c[2], c[3]} == {("attr", it, "guid"), key}
+
+    # shape 1: return inside the loop under the match, unconditional raise behind the loop
+    def loop_shape():
+        for r in rets:
+            it = r[3]
+            if not (it[0] == "iter" and it[2] is None and any(p and is_match(c, it) for c, p in r[2])):
+                return False
+        return outs[-1][0] == "raise" and not outs[-1][2]
+
+    # shape 2: next(generator filtered by the match, None); raise iff the result is None
+    def next_shape():
+        for r in rets:
+            v = r[3]
+            if not (v[0] == "call" and v[1] == "next" and len(v[2]) == 2 and v[2][1] == S.C(None) and v[2][0][0] == "comp"):
+                return False
+            comp = v[2][0]
+            it = ("iter", comp[3], None)
+            if not (comp[2] == it and len(comp[4]) == 1 and is_match(comp[4][0], it)):
+                return False
+            none_t, some_t = ("cmp", "is", v, S.C(None)), ("cmp", "isnot", v, S.C(None))
+            if not any((c == none_t and not p) or (c == some_t and p) for c, p in r[2]):
+                return False
+            if not any(len(o[2]) == 1 and ((o[2][0][0] == none_t and o[2][0][1]) or (o[2][0][0] == some_t and not o[2][0][1])) for o in raises):
+                return False
+        return True
+
+    return loop_shape() or next_shape()
